@@ -448,9 +448,13 @@ impl ExpectedError {
         let trimmed_err = actual_err.trim();
         let err_is_multiline = trimmed_err.lines().next_tuple::<(_, _)>().is_some();
 
+        // An inline regex is split into tokens and re-joined by single spaces when parsed, so it
+        // only survives if the text is made of tokens separated by single spaces.
+        let survives_inline = trimmed_err.split_whitespace().join(" ") == trimmed_err;
+
         let multiline = match reference {
             Some(Self::Multiline(_)) => true, // always multiline if the ref is multiline
-            _ => err_is_multiline,            // prefer inline as long as it fits
+            _ => err_is_multiline || !survives_inline, // prefer inline as long as it fits
         };
 
         if multiline {
@@ -458,7 +462,7 @@ impl ExpectedError {
             // an exact empty error is expected, instead of any error by `Empty`.
             Self::Multiline(trimmed_err.to_string())
         } else {
-            Self::new_inline(regex::escape(actual_err)).expect("escaped regex should be valid")
+            Self::new_inline(regex::escape(trimmed_err)).expect("escaped regex should be valid")
         }
     }
 }
